@@ -37,6 +37,10 @@ NS_LIST = ["NS_DESC_", "CM_", "BA_DEF_", "BA_", "VAL_", "CAT_DEF_", "CAT_", "FIL
            "BO_TX_BU_", "BA_DEF_REL_", "BA_REL_", "BA_DEF_DEF_REL_", "BU_SG_REL_", "BU_EV_REL_", "BU_BO_REL_", "SG_MUL_VAL_"]
 
 
+class NoTrail(str):
+    pass
+
+
 def random_lex(rng):
     lex = {}
     def maybe(k, choices, p=0.35):
@@ -145,7 +149,8 @@ def render(desc, lex=None, encoding="iso-8859-1"):
                 cms.append("CM_" + s + "SG_" + s + str(can_id(fr)) + s + sg["name"] + s + '"' + sg["comment"] + '"' + semi)
     ls = []
     for c in order("CM_", cms):
-        ls += c.split("\n")
+        parts = c.split("\n")
+        ls += [NoTrail(x) for x in parts[:-1]] + [parts[-1]]      # blanks inside a comment string would belong to the comment
     section(ls)
 
     # ---- attribute definitions ----
@@ -244,5 +249,14 @@ def render(desc, lex=None, encoding="iso-8859-1"):
         out += [""] * lx["blank"]
     eol = lx["eol"]
     trail = " " if lx["trail"] else ""
-    text = "".join(l + (trail if l else "") + eol for l in out)
+    text = "".join(l + (trail if (l and not isinstance(l, NoTrail)) else "") + eol for l in out)
     return text.encode(encoding)
+
+
+ENCODINGS = ["iso-8859-1", "utf-8"]
+
+
+def render_with_opts(desc, lex, encoding):
+    """bytes + the reader options that announce the encoding (dbcImportEncoding; default iso-8859-1)"""
+    opts = {} if encoding == "iso-8859-1" else {"dbcImportEncoding": encoding}
+    return render(desc, lex, encoding), opts
